@@ -48,17 +48,18 @@ func c06Siblings(chain string) []string {
 }
 
 type c06Gen struct {
-	r       *Rec
-	w       *c06World
-	run     func(op string) string
-	tss     map[string]string // chain -> configured address (generator's aim only)
-	recvSeq map[string]uint64 // next fresh sequence per source chain
-	commits map[string][]uint64
-	ackSeq  map[string]uint64
-	heavy   bool   // this history also registers > 100 relayers / a relayer with > 100 chains
-	kind    int    // data kind forced for the next receives (0 = random)
-	pf      string // " pf=<hex>" appended to the next recv / ack for a chain other than S ("" = none)
-	forceRl *string
+	r           *Rec
+	w           *c06World
+	run         func(op string) string
+	tss         map[string]string // chain -> configured address (generator's aim only)
+	recvSeq     map[string]uint64 // next fresh sequence per source chain
+	commits     map[string][]uint64
+	ackSeq      map[string]uint64
+	genesisNext int
+	heavy       bool   // this history also registers > 100 relayers / a relayer with > 100 chains
+	kind        int    // data kind forced for the next receives (0 = random)
+	pf          string // " pf=<hex>" appended to the next recv / ack for a chain other than S ("" = none)
+	forceRl     *string
 }
 
 func (g *c06Gen) pick(l []string) string { return l[g.r.Rng.Intn(len(l))] }
@@ -277,6 +278,98 @@ func (g *c06Gen) okCommit(dst string) {
 		}
 	}
 }
+
+// Start of the module from a genesis DOCUMENT that passes Validate() and is unusual: metadata under the reserved keys
+// (naming another TSS account, another Tendermint client state / validator set), duplicate metadata keys, metadata for
+// a chain without client (refused), relayers listed twice / in another spelling / for chains without clients — followed
+// by the usual attempts of the configured account T, the account A the metadata names, registered and unregistered relayers.
+func (g *c06Gen) genGenesis(class string) {
+	r := g.r
+	// clients section: the two Tendermint counterparties and a TSS chain x with account T
+	x := []string{"tss-a", "tss-b", "TSS-A"}[r.Rng.Intn(3)]
+	perm := r.Rng.Perm(c06NAcct)
+	Tacc, Aacc, Racc, Uacc := c06Accts[perm[0]], c06Accts[perm[1]], c06Accts[perm[2]], c06Accts[perm[3]]
+	clients := [][4]string{{hxs(c06S), "oth", "1", "-"}, {hxs(c06S2), "oth", "1", "-"}, {hxs(x), "tss", "1", hxs(Tacc.lower)}}
+	var metas [][4]string
+	type rel struct {
+		addr          string
+		chains, addrs []string
+	}
+	rels := []rel{{Tacc.lower, []string{x, c06S}, []string{"gen-t-on-x", "gen-t-on-s"}}, {Racc.lower, []string{x, c06S2}, []string{"gen-r-on-x", "gen-r-on-s2"}},
+		{Aacc.lower, []string{x}, []string{"gen-a-on-x"}}}
+	key := hx([]byte("c06Key"))
+	switch class {
+	case "reserved-clientstate-tss":
+		metas = append(metas, [4]string{hxs(x), "cstss", hxs(Aacc.lower), "-"})
+	case "reserved-clientstate-tm":
+		metas = append(metas, [4]string{hxs(c06S), "csoth", "-", "2"})
+	case "reserved-consensus-listed":
+		metas = append(metas, [4]string{hxs(c06S), "cons", fmt.Sprint(g.w.T.GetClientState(c06S).GetLatestHeight().GetRevisionHeight()), "2"})
+	case "reserved-consensus-unlisted":
+		metas = append(metas, [4]string{hxs(c06S), "cons", fmt.Sprint(g.w.T.GetClientState(c06S).GetLatestHeight().GetRevisionHeight() + 1000), "2"})
+	case "duplicate-metadata-keys":
+		metas = append(metas, [4]string{hxs(x), "raw", key, "1"}, [4]string{hxs(x), "raw", key, "2"}, [4]string{hxs(x), "cstss", hxs(Aacc.lower), "-"}, [4]string{hxs(x), "cstss", hxs(Uacc.lower), "-"})
+	case "metadata-without-client":
+		metas = append(metas, [4]string{hxs("nocl"), "raw", key, "1"})
+	case "relayers-twice":
+		rels = append(rels, rel{Racc.lower, []string{"nocl"}, []string{"gen-r-second-entry"}})
+	case "relayers-other-spelling":
+		rels = append(rels, rel{Uacc.upper, []string{x, c06S}, []string{"gen-u-upper", "gen-u-upper-s"}})
+	case "relayers-chains-without-clients":
+		rels = append(rels, rel{Uacc.lower, []string{"nocl", "ghost-chain"}, []string{"g1", "g2"}})
+	case "invalid-tss-address":
+		clients[2][2], clients[2][3] = "0", hxs("cosmos1notanaddress")
+	case "second-tss-client-same-metadata":
+		clients = append(clients, [4]string{hxs("tss-up"), "tss", "1", hxs(Racc.lower)})
+		metas = append(metas, [4]string{hxs("tss-up"), "cstss", hxs(Aacc.lower), "-"}, [4]string{hxs(x), "cstss", hxs(Racc.lower), "-"})
+	}
+	parts := []string{"genesis", class, hxs(c06T), "C", fmt.Sprint(len(clients))}
+	for _, c := range clients {
+		parts = append(parts, c[0], c[1], c[2], c[3])
+	}
+	parts = append(parts, "S", "0", "M", fmt.Sprint(len(metas)))
+	for _, m := range metas {
+		parts = append(parts, m[0], m[1], m[2], m[3])
+	}
+	parts = append(parts, "R", fmt.Sprint(len(rels)))
+	for _, rl := range rels {
+		parts = append(parts, hxs(rl.addr), fmt.Sprint(len(rl.chains)))
+		for _, c := range rl.chains {
+			parts = append(parts, hxs(c))
+		}
+		parts = append(parts, fmt.Sprint(len(rl.addrs)))
+		for _, c := range rl.addrs {
+			parts = append(parts, hxs(c))
+		}
+	}
+	out := g.run(strings.Join(parts, " "))
+	if !strings.HasPrefix(out, "ok") {
+		return
+	}
+	// the generator's aim follows the document
+	g.tss = map[string]string{x: Tacc.lower}
+	if class == "second-tss-client-same-metadata" {
+		g.tss["tss-up"] = Racc.lower
+	}
+	payout := "gen-t-on-x"
+	for _, a := range []c06Acct{Tacc, Aacc, Racc, Uacc} {
+		g.run(fmt.Sprintf("q %s %s %s", hxs(x), hxs(a.lower), hxs("GEN-T-ON-X")))
+		g.genUpd(a.lower, a.lower, x, true)
+		g.genRecv(a.lower, a.lower, x, true)
+		g.okCommit(x)
+		g.forceRl = &payout
+		g.genAck(a.lower, a.lower, x, true)
+		g.forceRl = nil
+		g.genUpd(a.lower, a.lower, c06S, true)
+		g.genRecv(a.lower, a.lower, c06S, true)
+		g.genRecv(a.lower, a.lower, c06S2, true)
+	}
+	g.genRecv(Uacc.upper, Uacc.lower, x, true)
+}
+
+var c06GenesisClasses = []string{"honest", "reserved-clientstate-tss", "reserved-clientstate-tm", "reserved-consensus-listed", "reserved-consensus-unlisted",
+	"duplicate-metadata-keys", "metadata-without-client", "relayers-twice", "relayers-other-spelling", "relayers-chains-without-clients", "invalid-tss-address",
+	"second-tss-client-same-metadata"}
 
 // Restart in the middle of a history with at least two relayers registered for the same chain and others for
 // different chains: afterwards every relayer keeps exactly its own chains and its own counterparty addresses.
@@ -804,10 +897,14 @@ func (g *c06Gen) history(steps int, sweep bool) {
 	} else if x == 2 {
 		g.genRestart("app")
 	}
+	if r.Rng.Intn(3) == 0 {
+		g.genGenesis(c06GenesisClasses[g.genesisNext%len(c06GenesisClasses)])
+		g.genesisNext++
+	}
 	if g.heavy {
 		g.genManyRelayers([]string{"module", "app"}[r.Rng.Intn(2)])
 	}
-	if selfClient {
+	if selfClient && g.tss[c06T] != "" { // a start from a genesis document may have dropped the own-name client
 		// receives of packets whose source is this chain: destination without client (error ack "dstChain not
 		// found") or with client (relay, no ack) — from the TSS account of the own-name client, registered for it
 		t := g.tss[c06T]
